@@ -69,6 +69,12 @@ def generate(rng, tier):
                 for c in us:
                     prog["s%d" % c] = W.beh_ret(shapes[0])
                 cases.append(W.mk_case("C04", "hit", "ok", 0, 0, us, [], False, prog, meth, None, usm))
+    # an exception handler that aborts with a status: the status handler's value is interpreted like an endpoint value
+    for code in (404, 418, 500):
+        for shape in shapes:
+            for na in (0, 1, 2):
+                cases.append(W.mk_case("C04", "hit", "ok", 0, na, [code], [0], False,
+                                       {"e": "exc~0", "x0": "ab~%d~0~0" % code, "s%d" % code: W.beh_ret(shape)}))
     # nested failures to depth 3: endpoint fails -> its handler fails -> the 500 handler fails
     fails = ["exc~0", "exc~2", "ab~404~0~0", "ab~418~0~0", "ret~X", "sysexit", "conn", "base", "ab~0~0~0", "ab~500~0~0"]
     for f1 in fails:
@@ -174,6 +180,15 @@ def oracle(case):
                 h = c["prog"].get("x%d" % i, "ret~N")
                 if status_of(h) is not None and status != status_of(h):
                     bad = "exception handler's value was not interpreted like an endpoint value (status %s)" % status
+                elif h.startswith("ab~") and h.endswith("~0~0"):
+                    code = int(h.split("~")[1])
+                    if code in c["us"] and (c["usm"][c["us"].index(code)] & W.method_bit(c["meth"])):
+                        sh = c["prog"].get("s%d" % code, "ret~N")
+                        if "s%d" % code not in trace:
+                            bad = "status handler for %d did not run after the exception handler aborted with it" % code
+                        elif status_of(sh) is not None and status != status_of(sh):
+                            bad = ("the exception handler aborted with %d: the status handler's value was not "
+                                   "interpreted like an endpoint value (status %s)" % (code, status))
     if bad:
         return [Violation("c04:" + e.split("~")[0], case, bad)]
     return []
